@@ -8,7 +8,9 @@ ID = "C12"
 PROP_FILES = ["Props/C12.v"]
 RUN_FILES = ["Run/C12Run.v", "Run/PolyRun.v"]
 RULE = ("generated: programs of 1-3 linked files (bytes-only statements of sizes 1-6, 2-6 labels anywhere, exported across files) with "
-        "(a) a link expression K + sum k_i*(L_i-L_j) in 20 spellings (k*(a-b), (a-b)*k, k*a-k*b, a*k-b*k, unary minus, via a symbol holding the "
+        "(a) a link expression K + sum k_i*(L_i-L_j) in 27 spellings (k*(a-b), (a-b)*k, k*a-k*b, a*k-b*k, unary minus and unary plus applied to "
+        "differences AND directly to labels (-b+a, a+(-b), (+a)-(+b), -(-a)-b, n = -b / a+n), printed fully parenthesised or with the minimal "
+        "parentheses of the operator precedences (a bare leading '-label'), via a symbol holding the "
         "difference, via symbols holding the addresses, chains of symbols holding addresses or differences, factors that are symbols or chains of "
         "symbols on either side of an address, / % & | ^ _ ~ << >> of differences, a<<n - b<<n, whole expression via a symbol), the .link (or a "
         "leading '. =') anywhere in any file, every symbol defined anywhere (before or after use, in any order, exported across files); every such "
@@ -62,9 +64,36 @@ def src(e, labname):
         return "(%s %s %s)" % (src(e[2], labname), e[1], src(e[3], labname))
     if t == "neg":
         return "(-%s)" % src(e[1], labname)
+    if t == "pos":
+        return "(+%s)" % src(e[1], labname)
     if t == "inv":
         return "(~%s)" % src(e[1], labname)
     raise AssertionError(e)
+
+
+PREC = {"*": 3, "/": 3, "%": 3, "+": 4, "-": 4, "<<": 5, ">>": 5, "_": 5, "&": 8, "^": 9, "|": 10}
+
+
+def src_min(e, labname):
+    """the same expression with only the parentheses the precedences require (operators.py: unary 2, * / % 3,
+    + - 4, << >> _ 5, & 8, ^ 9, | 10, all left associative); returns (text, precedence)"""
+    t = e[0]
+    if t in ("k", "lab", "here", "sym"):
+        return src(e, labname), 0
+    if t in ("neg", "pos", "inv"):
+        x, px = src_min(e[1], labname)
+        if px > 2 or x[:1] in "+-~":
+            x = "(%s)" % x
+        return {"neg": "-", "pos": "+", "inv": "~"}[t] + x, 2
+    op, a, b = (e[1], e[2], e[3]) if t == "aw" else (t, e[1], e[2])
+    pr = PREC[op]
+    x, px = src_min(a, labname)
+    y, py = src_min(b, labname)
+    if px > pr:
+        x = "(%s)" % x
+    if py >= pr or y[:1] in "+-":
+        y = "(%s)" % y
+    return "%s %s %s" % (x, op, y), pr
 
 
 def top_src(e, labname):
@@ -95,6 +124,8 @@ def coq(e):
         return "(LAw %s %s %s)" % (AWOPS[e[1]], coq(e[2]), coq(e[3]))
     if t == "neg":
         return "(LNeg %s)" % coq(e[1])
+    if t == "pos":
+        return coq(e[1])          # +x is x (operators.pos, not awaited)
     if t == "inv":
         return "(LInv %s)" % coq(e[1])
     raise AssertionError(e)
@@ -115,6 +146,8 @@ def pyeval(e, addr):
         return pyeval(e[2], addr)
     if t == "neg":
         return -pyeval(e[1], addr)
+    if t == "pos":
+        return pyeval(e[1], addr)
     if t == "inv":
         return ~pyeval(e[1], addr)
     if t == "aw":
@@ -165,9 +198,14 @@ class Prog:
         self.files = [[] for _ in range(nfiles)]
         self.nlabels = 0
         self.multi = nfiles > 1
+        self.minimal = False
 
     def labname(self):
         return {i: "lb%d" % i for i in range(self.nlabels)}
+
+    def spell(self, e, names):
+        """fully parenthesised, or with the minimal parentheses (so that e.g. a leading unary minus is bare)"""
+        return src_min(e, names)[0] if self.minimal else src(e, names)
 
     def new_label(self):
         self.nlabels += 1
@@ -186,11 +224,11 @@ class Prog:
                 elif st[0] == "mark":
                     pass
                 elif st[0] == "link":
-                    lines.append("\t.link " + src(st[1], names))
+                    lines.append("\t.link " + self.spell(st[1], names))
                 elif st[0] == "dot":
-                    lines.append("\t. = " + src(st[1], names))
+                    lines.append("\t. = " + self.spell(st[1], names))
                 elif st[0] == "assign":
-                    lines.append("%s %s %s" % (st[1], "==" if self.multi else "=", src(st[2], names)))
+                    lines.append("%s %s %s" % (st[1], "==" if self.multi else "=", self.spell(st[2], names)))
             out.append(("f%d.mac" % k, "\n".join(lines) + "\n"))
         return out
 
@@ -290,6 +328,20 @@ def diff_term(rng, k, i, j, shapes, allow_sym=True):
         return ("-", ("*", a, K(k)), ("*", b, K(k))), shape
     if shape == "-(b-a)*k":
         return ("*", ("neg", ("-", b, a)), K(k)), shape
+    if shape == "-b+a":
+        return ("*", K(k), ("+", ("neg", b), a)), shape
+    if shape == "a+(-b)":
+        return ("*", K(k), ("+", a, ("neg", b))), shape
+    if shape == "(+a)-(+b)":
+        return ("*", K(k), ("-", ("pos", a), ("pos", b))), shape
+    if shape == "-(-a)-b":
+        return ("*", K(k), ("-", ("neg", ("neg", a)), b)), shape
+    if shape == "-(b+(-a))":
+        return ("*", ("neg", ("+", b, ("neg", a))), K(k)), shape
+    if shape == "a+n,n=-b":
+        return ("*", K(k), ("+", a, ("sym", fresh("n"), ("neg", b)))), shape
+    if shape == "-m+a,m=+b":
+        return ("*", K(k), ("+", ("neg", ("sym", fresh("m"), ("pos", b))), a)), shape
     if shape == "k*d":
         return ("*", K(k), ("sym", fresh("d"), d)), shape
     if shape == "k*(x-y)":
@@ -336,8 +388,8 @@ def diff_term(rng, k, i, j, shapes, allow_sym=True):
     raise AssertionError(shape)
 
 
-DIRECT_SHAPES = ["k*(a-b)", "(a-b)*k", "k*a-k*b", "a*k-b*k", "-(b-a)*k", "aw", "inv", "(a-b)<<n", "(a-b)>>n", "a<<n-b<<n", "a>>0-b"]
-SYMBOL_SHAPES = ["k*d", "k*(x-y)", "(x-b)*k", "chain", "a*ks-b*ks", "ks*a-ks*b", "ks*(a-b)", "chain-d", "aw"]
+DIRECT_SHAPES = ["k*(a-b)", "(a-b)*k", "k*a-k*b", "a*k-b*k", "-(b-a)*k", "-b+a", "a+(-b)", "(+a)-(+b)", "-(-a)-b", "-(b+(-a))", "aw", "inv", "(a-b)<<n", "(a-b)>>n", "a<<n-b<<n", "a>>0-b"]
+SYMBOL_SHAPES = ["k*d", "k*(x-y)", "(x-b)*k", "chain", "a*ks-b*ks", "ks*a-ks*b", "ks*(a-b)", "chain-d", "a+n,n=-b", "-m+a,m=+b", "aw"]
 SOLVED_SHAPES = DIRECT_SHAPES + SYMBOL_SHAPES
 
 
@@ -374,7 +426,7 @@ def gen_solved(rng, mode="direct", via_dot=False, boundary=None):
     for n in range(rng.choice([1, 1, 2, 3])):
         i, j = rng.randrange(nl), rng.randrange(nl)
         k = rng.choice([1, 1, 2, 3, -1, -2, 5, 0])
-        t, shape = diff_term(rng, k, i, j, pool if (n or mode == "direct") else SYMBOL_SHAPES[:8], allow_sym=(mode != "direct"))
+        t, shape = diff_term(rng, k, i, j, pool if (n or mode == "direct") else SYMBOL_SHAPES[:10], allow_sym=(mode != "direct"))
         shapes.append(shape)
         e = t if e is None else ((rng.choice("+-"), e, t))
     base0 = rng.choice([0o1000, 0o1000, 0, 0o100, 0o40000, 0o2000, 0o157776])
@@ -404,6 +456,7 @@ def gen_solved(rng, mode="direct", via_dot=False, boundary=None):
         fidx = rng.randrange(nfiles)
         insert_at(rng, p.files[fidx], ("link", e))
     place_symbols(rng, p, e, fidx, ordered=(rng.random() < 0.25))
+    p.minimal = rng.random() < 0.45
     exp = "ESolved %s %s %s" % (C.zlist(offs), coq(e), C.zlist(data))
     return p, exp, ("solved-" + mode, tuple(sorted(set(shapes))), nfiles), {"expected_value": v}
 
@@ -439,6 +492,7 @@ def gen_self(rng):
     fidx = rng.randrange(nfiles)
     insert_at(rng, p.files[fidx], ("link", e))
     place_symbols(rng, p, e, fidx)
+    p.minimal = rng.random() < 0.45
     return p, "ESelf %s %s" % (C.zlist(offs), coq(e)), ("self", shape, nfiles), {}
 
 
